@@ -92,8 +92,9 @@ func (l *Loader) responseCacheCollect(prepared *preparedFetch) error {
 	}
 
 	res := prepared.res
-	if res.err != nil || len(res.out) == 0 || res.statusCode >= 400 {
-		// A failed fetch is not cacheable, which is not a collection failure and is
+	if res.err != nil || len(res.out) == 0 || res.statusCode < 200 || res.statusCode >= 300 {
+		// Only a successful (2xx) fetch is cacheable. Anything else, including a
+		// 3xx handed through by the HTTP client, is not a collection failure and is
 		// handled at other locations.
 		return nil //nolint:nilerr
 	}
